@@ -423,12 +423,34 @@ def unit(p, item, tier, seed):
             check_case(p, case, rnd, 600000 if case.get("heavy") else 240000)
 
 
+def divmod_unit(p, item, tier, seed):
+    """Restoring division at a width beyond the direct query: per-iteration lemmas + integer argument (c09_comp)."""
+    from checks import c09_comp
+
+    n, be = item
+    probs, stats = c09_comp.div_mod_true_width(p, n, be)
+    p.case(("c09-divmod-comp", n, be), sample=f"compositional div_mod n={n} big_endian={be}: {stats}")
+    hard = [x for x in probs if "inconclusive" not in x]
+    for x in probs:
+        if "inconclusive" in x:
+            p.inconclusive.append(f"div_mod n={n}: {x}")
+    if not hard:
+        return
+    mm = c09_comp.concrete_mismatch(n, be)
+    if mm is None:
+        p.inconclusive.append(f"compositional check of div_mod n={n} failed ({hard[0]}) but the targeted concrete operand pairs divide correctly")
+        p.queries["unknown"] += 1
+        return
+    p.violation(f"gen:add_div_mod:{'BE:' if be else ''}wide", f"div_mod n={n} big_endian={be}: {hard[:2]}; concrete witness {mm[0]} / {mm[1]} gives quotient {mm[2]} remainder {mm[3]}",
+                REPLAY_PRELUDE + "from checks import c09_comp\n" + f"mm=c09_comp.concrete_mismatch({n}, {be})\nprint(mm)\nsys.exit(1 if mm else 0)\n")
+
+
 def run(rep, tier, seed, only=None):
     symeval.install()
     rep.functions = ["subtraction.add_sub2/add_sub3/add_sub_two_numbers/add_subtract_with_compare/generate_sub_two_numbers", "div_mod.add_div_mod/generate_div_mod",
                      "sqrt.add_sqrt/generate_sqrt", "equality.add_equal/generate_equal",
                      "generation.add_plus_one/add_if_then_else/add_pairwise_if_then_else/add_pairwise_xor and generate_* forms"]
-    rep.bounds = {"sub/compare": "all widths <=6 (quick, half of the larger pairs) / <=10 (thorough), both endiannesses; spot 32..128", "div_mod": "n<=9 (quick) / <=12 (thorough)",
+    rep.bounds = {"sub/compare": "all widths <=6 (quick, half of the larger pairs) / <=10 (thorough), both endiannesses; spot 32..128", "div_mod": "monolithic n<=9 (quick) / <=12 (thorough)",
                   "sqrt": "n<=16 / <=24", "equality": "n<=6 / <=8, every 0<=num<=2^(n+1) for small n", "plus_one": "inp_len,out_len<=6 / <=10, add_outputs both, default result labels",
                   "gadgets": "n in {1,2,4}, named/unnamed results, add_outputs both, three host kinds"}
     rep.outside = ["negative num for the equality gadget (undocumented domain)", "width 0", "widths above the listed ones"]
@@ -444,3 +466,8 @@ def run(rep, tier, seed, only=None):
     work = [dict(seed=seed * 1000 + i, cases=[c]) for i, c in enumerate(heavy)]
     work += [dict(seed=seed * 1000 + 500 + i, cases=light[i::48]) for i in range(48)]
     rep.pmap(unit, [w for w in work if w["cases"]])
+    if only is None or "div_mod" in only:
+        thorough = tier == "thorough"
+        rep.pmap(divmod_unit, [(n, bool(n % 3)) for n in ((12, 16, 24, 32) if not thorough else (10, 12, 13, 16, 17, 24, 31, 32, 33, 48, 64))])
+        rep.bounds["div_mod (compositional)"] = ("n = 12, 16, 24, 32 (quick) / 10..64 (thorough): one bit-vector lemma per iteration of the restoring scheme (entering remainder and divisor free), "
+                                                 "the zero-divisor stage, and integer lemmas (step bound, Euclid uniqueness)")
